@@ -84,6 +84,20 @@ pub fn generate(prop: &str, seed: u64, idx: u64, tier: Tier) -> Plan {
         p.ops.push(Op::new(t, "send", &[side as i64, ch as i64, sender as i64, len as i64]));
         t += r.below(gap + 1);
     }
+    // an in-band channel opened by the peer while data is flowing (its DCEP OPEN / ACK then compete with the
+    // bulk transfer for window and send-buffer credit)
+    if prop != "C13" && r.chance(25) {
+        let i = nch;
+        p.knobs.insert("nch".into(), (nch + 1) as i64);
+        let creator_b = r.chance(50);
+        p.knobs.insert(format!("ch{i}"), if prop == "C01" { 8 } else { 8 + r.below(6) as i64 } + if creator_b { 16 } else { 0 });
+        p.knobs.insert(format!("pr{i}"), 300);
+        p.knobs.insert(format!("late{i}"), r.range(start, t + 200) as i64);
+        let side = if creator_b { 1 } else { 0 };
+        for k in 0..r.range(1, 3) {
+            p.ops.push(Op::new(t + 100 + k * 10, "send", &[side as i64, i as i64, 0, r.range(12, 3000) as i64]));
+        }
+    }
     if prop == "C12" && r.chance(15) {
         let ch = r.below(nch);
         p.ops.push(Op::new(t + r.range(200, 3000), "close_ch", &[r.below(2) as i64, ch as i64]));
